@@ -9,6 +9,12 @@ cases
   grid seq clist nalist mglist  the whole product of the three (ascending) lists
   mt   seq                      MeltingTemp / SantaLucia at the defaults / MarmurDoty
 
+Domain of the judge = the property's quantifier: A/C/G/T sequences (either case) of length ≥ 2 (an
+oligonucleotide has at least one pair of adjacent bases; the quantifier starts at 2) at concentrations
+inside the stated ranges.  The empty sequence, a single letter, other letters and out-of-range
+concentrations are run for correspondence only (`skip`; a difference there is counted as drift):
+what the code does there — a value, NaN, a panic — is not constrained by the property.
+
 Monotonicity on binary64 (what the judge demands of the real float64 results).  STRICT increase of Tm
 in each concentration is a fact about the formula over the reals (Props/C19: tm_mono_oligo/na/mg).  In
 binary64 two conditions a few ulp apart give the same Tm (ties), so for every pair of in-range
@@ -189,7 +195,7 @@ def judgePt (s : String) (c na mg c2 na2 mg2 : Float) (out : List String) : Verd
     let exact := okLen && (model.zip rs).all fun (m, r) => bitExact m r
     match Spec.NN.basesOf? cs with
     | some b =>
-      let inDom := !b.isEmpty && inRange c na mg && inRange c2 na2 mg2
+      let inDom := b.length ≥ 2 && inRange c na mg && inRange c2 na2 mg2
       let j := match rs with
         | [r1, r2, r3, r4] =>
           let fa := formulaOk b c na mg r1 && formulaOk b c2 na2 mg2 r4
@@ -211,14 +217,14 @@ def judgePt (s : String) (c na mg c2 na2 mg2 : Float) (out : List String) : Verd
       let why := (if j.1 then "" else "formula ") ++ (if j.2.1 then "" else "case-dependence ") ++
         (if j.2.2 then "" else "dH-depends-on-concentration ") ++ (if monoOk then "" else "Tm-not-monotone ")
       { corr, judge := if inDom then some pass else none,
-        cls := (if b.length < 2 then "triv:" else "") ++ "pt/" ++ seqClass b ++ monoTag ++ (if exact then "/bits" else "/tol"),
+        cls := "pt/" ++ seqClass b ++ monoTag ++ (if exact then "/bits" else "/tol"),
         detail := if corr && pass then "" else
           why ++ "model: " ++ "; ".intercalate (model.map showReply) ++ " spec: Tm=" ++
             toString (Spec.NN.tmF b c na mg) ++ " dH=" ++ toString (Spec.NN.dHF b) ++ " dS=" ++ toString (Spec.NN.dSF b na mg) }
     | none =>
       { corr, judge := none, cls := "pt/non-acgt",
         detail := if corr then "" else "model: " ++ "; ".intercalate (model.map showReply) }
-  | none => { corr := false, judge := if (Spec.NN.basesOf? cs).isSome && !cs.isEmpty && inRange c na mg && inRange c2 na2 mg2
+  | none => { corr := false, judge := if (Spec.NN.basesOf? cs).isSome && cs.length ≥ 2 && inRange c na mg && inRange c2 na2 mg2
                 then some false else none,
               cls := "pt/malformed-reply", detail := "model: " ++ "; ".intercalate (model.map showReply) }
 
@@ -243,7 +249,7 @@ def judgeGrid (s : String) (cl nal mgl : List Float) (out : List String) : Verdi
     let exact := okLen && (model.zip rs).all fun (m, r) => bitExact m r
     match Spec.NN.basesOf? cs with
     | some b =>
-      let inDom := !b.isEmpty && !points.isEmpty && points.all fun (c, na, mg) => inRange c na mg
+      let inDom := b.length ≥ 2 && !points.isEmpty && points.all fun (c, na, mg) => inRange c na mg
       let ra := rs.toArray
       let pick (i j k : Nat) : Reply := (ra[i * (nN * nM) + j * nM + k]?).getD none
       let formula := okLen && (points.zip rs).all fun ((c, na, mg), r) => formulaOk b c na mg r
@@ -281,7 +287,7 @@ def judgeGrid (s : String) (cl nal mgl : List Float) (out : List String) : Verdi
         (if dSconst then "" else "dS-depends-on-oligo-concentration ") ++
         (if mono then "" else "Tm-not-monotone(decrease, or tie at separation>=1e-9) ")
       { corr, judge := if inDom then some pass else none,
-        cls := (if b.length < 2 || points.length < 2 then "triv:" else "") ++ tag ++ seqClass b ++ sepTag ++ (if exact then "/bits" else "/tol"),
+        cls := (if b.length ≥ 2 && points.length < 2 then "triv:" else "") ++ tag ++ seqClass b ++ sepTag ++ (if exact then "/bits" else "/tol"),
         detail := if corr && pass then "" else why ++ "model: " ++ "; ".intercalate (model.map showReply) }
     | none =>
       { corr, judge := none, cls := tag ++ "non-acgt",
@@ -290,7 +296,7 @@ def judgeGrid (s : String) (cl nal mgl : List Float) (out : List String) : Verdi
     -- a panic of the whole op (empty sequence) or a malformed reply
     let allPanic := !model.isEmpty && model.all (·.isNone)
     let corr := allPanic && (match out with | "panic" :: _ => true | _ => false)
-    { corr, judge := if (Spec.NN.basesOf? cs).isSome && !cs.isEmpty && (points.all fun (c, na, mg) => inRange c na mg)
+    { corr, judge := if (Spec.NN.basesOf? cs).isSome && cs.length ≥ 2 && (points.all fun (c, na, mg) => inRange c na mg)
                 then some false else none,
       cls := tag ++ "no-reply", detail := "model: " ++ "; ".intercalate (model.map showReply) }
 
@@ -316,7 +322,7 @@ def judgeMt (s : String) (out : List String) : Verdict :=
       let corr := cmp mMt rMt && cmp mSl rSl && (match rMd with | some d => d.toBits == mMd.toBits | none => false)
       match Spec.NN.basesOf? cs with
       | some b =>
-        let inDom := !b.isEmpty
+        let inDom := b.length ≥ 2
         -- (d) the helper equals the general function at the defaults, bit for bit, and those are
         --     500 nM / 50 mM / 0 (the spec formula at the spec's own constants)
         let dflt := match rMt, rSl with
@@ -328,14 +334,14 @@ def judgeMt (s : String) (out : List String) : Verdict :=
           | none => false
         let why := (if dflt then "" else "MeltingTemp≠SantaLucia(defaults) ") ++ (if md then "" else "MarmurDoty ")
         { corr, judge := if inDom then some (dflt && md) else none,
-          cls := (if b.length < 2 then "triv:" else "") ++ "mt/" ++ seqClass b,
+          cls := "mt/" ++ seqClass b,
           detail := if corr && dflt && md then "" else why ++ detail ++ s!" spec: Tm={Spec.NN.tmF b 500e-9 50e-3 0} MD={Spec.NN.marmurDoty b}" }
       | none => { corr, judge := none, cls := "mt/non-acgt", detail := if corr then "" else detail }
     -- an unreadable inner field on an in-domain case is a FAILURE (mt cases are the only judge of the
     -- default-helper and Marmur–Doty clauses), not a skip
-    | _, _, _ => { corr := false, judge := if (Spec.NN.basesOf? cs).isSome && !cs.isEmpty then some false else none,
+    | _, _, _ => { corr := false, judge := if (Spec.NN.basesOf? cs).isSome && cs.length ≥ 2 then some false else none,
                    cls := "mt/malformed-reply", detail := "unreadable reply field; " ++ detail }
-  | _ => { corr := false, judge := if (Spec.NN.basesOf? cs).isSome && !cs.isEmpty then some false else none,
+  | _ => { corr := false, judge := if (Spec.NN.basesOf? cs).isSome && cs.length ≥ 2 then some false else none,
            cls := "mt/malformed-reply", detail }
 
 def judge (f out : List String) : Verdict :=
